@@ -30,6 +30,7 @@ var (
 //	L3: all-indexed log event; plan headers+logs (second event of C04)
 //	T1: transaction indexing; plan blocks
 //	R1: transaction + receipt fields; plan blocks+receipts
+//	TR1: trace indexing (+ tx_hash); plan blocks+traces
 func shape(name, ig, tbl string, srcs ...world.SrcRef) *world.Decl {
 	d := &world.Decl{Name: ig, Table: tbl, Sources: srcs}
 	switch name {
@@ -54,6 +55,9 @@ func shape(name, ig, tbl string, srcs ...world.SrcRef) *world.Decl {
 	case "R1":
 		d.Fields = []world.Field{{Name: "tx_hash", Column: "tx_hash"}, {Name: "tx_input", Column: "tx_input"}, {Name: "tx_status", Column: "tx_status"},
 			{Name: "tx_gas_used", Column: "tx_gas_used"}, {Name: "block_hash", Column: "block_hash"}}
+	case "TR1": // trace indexing; plan blocks+traces (tx_hash needs full blocks, hence parent hashes)
+		d.Fields = []world.Field{{Name: "trace_action_from", Column: "tfrom"}, {Name: "trace_action_to", Column: "tto"},
+			{Name: "trace_action_value", Column: "tval"}, {Name: "trace_action_call_type", Column: "tct"}, {Name: "tx_hash", Column: "tx_hash"}}
 	default:
 		panic("unknown shape " + name)
 	}
@@ -97,20 +101,25 @@ func mkLog(d *world.Decl, addr []byte, seed string) *simeth.Log {
 func blockSpec(kind byte, h int) simeth.BlockSpec {
 	lt := func(addr []byte, i int) *simeth.Log { return mkLog(declTransfer, addr, fmt.Sprintf("h%d/T%d", h, i)) }
 	lp := func(addr []byte, i int) *simeth.Log { return mkLog(declPing, addr, fmt.Sprintf("h%d/P%d", h, i)) }
+	// every transaction carries traces (values derive from height/tx only, like the logs): tx 0 one, tx 1 two
+	tr := func(tx, i int) *simeth.Trace {
+		s := fmt.Sprintf("h%d/x%d/tr%d", h, tx, i)
+		return &simeth.Trace{From: simeth.Addr(s + "/f"), To: simeth.Addr(s + "/t"), Value: new(big.Int).SetBytes(simeth.Word(s + "/v")[:9]), CallType: "call"}
+	}
 	switch kind {
 	case 'e':
 		return simeth.BlockSpec{}
 	case 'a':
-		return simeth.BlockSpec{Txs: []simeth.TxSpec{{Logs: []*simeth.Log{lt(addrA, 0)}}}}
+		return simeth.BlockSpec{Txs: []simeth.TxSpec{{Logs: []*simeth.Log{lt(addrA, 0)}, Traces: []*simeth.Trace{tr(0, 0)}}}}
 	case 'c':
 		return simeth.BlockSpec{Txs: []simeth.TxSpec{
-			{Logs: []*simeth.Log{lt(addrA, 0), lt(addrA, 1), lp(addrA, 0)}},
-			{Logs: []*simeth.Log{lt(addrA, 2), lt(addrB, 3), lp(addrB, 1)}},
+			{Logs: []*simeth.Log{lt(addrA, 0), lt(addrA, 1), lp(addrA, 0)}, Traces: []*simeth.Trace{tr(0, 0)}},
+			{Logs: []*simeth.Log{lt(addrA, 2), lt(addrB, 3), lp(addrB, 1)}, Traces: []*simeth.Trace{tr(1, 0), tr(1, 1)}},
 		}}
 	case 'd':
-		return simeth.BlockSpec{Txs: []simeth.TxSpec{{}}}
+		return simeth.BlockSpec{Txs: []simeth.TxSpec{{Traces: []*simeth.Trace{tr(0, 0)}}}}
 	case 'p':
-		return simeth.BlockSpec{Txs: []simeth.TxSpec{{Logs: []*simeth.Log{lt(addrA, 0), lt(addrB, 1), lp(addrA, 0)}}}}
+		return simeth.BlockSpec{Txs: []simeth.TxSpec{{Logs: []*simeth.Log{lt(addrA, 0), lt(addrB, 1), lp(addrA, 0)}, Traces: []*simeth.Trace{tr(0, 0)}}}}
 	}
 	panic("block kind")
 }
